@@ -1,3 +1,4 @@
+import NibabelModel.Lemmas.C16_Digits
 import NibabelModel.Model.C19
 /-! Lemmas/C19 — helper lemmas for the C19 property theorems (core Lean only). -/
 namespace Nb.C19
@@ -280,5 +281,46 @@ theorem rdVolInfo_serialize (vi : VolInfo) (ok : VolOk vi) :
       parseKV_line kCras (padKey kCras) _ (by decide) (by decide) n6.1,
       strip_val _ hv, strip_val _ hf, words_j3, ta1, tb1, tc1, ta2, tb2, tc2, ta3, tb3, tc3, ta4, tb4, tc4,
       ta5, tb5, tc5, ta6, tb6, tc6]
+
+/-! ### integer tokens -/
+
+theorem decRepr_head_ne_minus (n : Nat) : ∀ r, Nb.C16.decRepr n ≠ 45 :: r := by
+  intro r h
+  have := Nb.C16.decRepr_all_digit n 45 (by rw [h]; exact List.mem_cons_self ..)
+  simp [Nb.C16.isDigit] at this
+
+theorem intParse_intRepr (v : Int) : intParse (intRepr v) = .ok v := by
+  unfold intRepr
+  split
+  · simp only [intParse, Nb.C16.parseDec_decRepr]
+    congr 1; omega
+  · have hne := decRepr_head_ne_minus v.natAbs
+    unfold intParse
+    split
+    · rename_i r heq; exact absurd heq (hne r)
+    · simp only [Nb.C16.parseDec_decRepr]
+      congr 1; omega
+
+theorem intsParse_map (vs : List Int) : intsParse (vs.map intRepr) = .ok vs := by
+  induction vs with
+  | nil => rfl
+  | cons v t ih => simp only [List.map_cons, intsParse, intParse_intRepr, ih]
+
+theorem intRepr_tokOk (v : Int) : TokOk (intRepr v) := by
+  have hd : ∀ c ∈ Nb.C16.decRepr v.natAbs, isWs c = false ∧ c ≠ 61 := by
+    intro c hc
+    have := Nb.C16.decRepr_all_digit _ c hc
+    simp only [Nb.C16.isDigit, Bool.and_eq_true, decide_eq_true_eq] at this
+    refine ⟨?_, by omega⟩
+    simp only [isWs, Bool.or_eq_false_iff, Bool.and_eq_false_iff, beq_eq_false_iff_ne, ne_eq, decide_eq_false_iff_not]
+    omega
+  unfold intRepr
+  split
+  · refine ⟨by simp, ?_⟩
+    intro b hb
+    rcases List.mem_cons.1 hb with rfl | hb
+    · decide
+    · exact hd b hb
+  · exact ⟨Nb.C16.decRepr_ne_nil _, hd⟩
 
 end Nb.C19
